@@ -19,8 +19,11 @@ pub struct Ctx {
 }
 
 pub fn ctx() -> Ctx {
-    let (all, pairs) = enumerate_with_pairs(gen_derive::THOROUGH);
-    let entries = gen_derive::entries();
+    #[cfg(feature = "derive-family")]
+    let (thorough, entries) = (gen_derive::THOROUGH, gen_derive::entries());
+    #[cfg(not(feature = "derive-family"))]
+    let (thorough, entries): (bool, Vec<derive_rt::Entry>) = (false, Vec::new());
+    let (all, pairs) = enumerate_with_pairs(thorough);
     assert_eq!(all.len(), entries.len(), "generated entry table and interpreted schema list differ");
     for (s, e) in all.iter().zip(&entries) {
         assert_eq!(s.id, e.id);
